@@ -90,16 +90,25 @@ func init() {
 					s = b.Bytes()
 				}
 				if pkg == "gzip" && r.Intn(3) == 0 {
+					// a member with every optional header field incl. the header CRC (no Go writer emits FHCRC)
+					h := randGzHeader(r)
+					if len(h.Extra) > 40 {
+						h.Extra = h.Extra[:r.Intn(40)]
+					}
+					hb := buildGzHeader(r, h, true)
+					s = append(append([]byte{}, hb...), s[10:]...)
+				}
+				if pkg == "gzip" && r.Intn(3) == 0 {
 					s2, _, _ := genContainerStream(r, pkg, "quick")
 					if len(s2) < 3000 {
 						s = append(append([]byte{}, s...), s2...)
 					}
 				}
 				for k := 0; k < len(s); k++ {
-					cs = append(cs, Case{Prop: "C07", Pkg: pkg, Kind: "cut", Stream: s, K: k, Reads: smallReads(r), Note: how})
+					cs = append(cs, Case{Prop: "C07", Pkg: pkg, Kind: "cut", Stream: s, K: k, Reads: smallReads(r), Note: how, Ints: []int{0, 0, r.Intn(2)}})
 				}
 				for j := 0; j < tierN(tier, 70, 170); j++ {
-					cs = append(cs, Case{Prop: "C07", Pkg: pkg, Kind: "flip", Stream: s, K: int(r.U64() >> 34), Ints: []int{1 + r.Intn(3), r.Intn(4)}, Reads: smallReads(r), Note: how})
+					cs = append(cs, Case{Prop: "C07", Pkg: pkg, Kind: "flip", Stream: s, K: int(r.U64() >> 34), Ints: []int{1 + r.Intn(3), r.Intn(4), r.Intn(2)}, Reads: smallReads(r), Note: how})
 				}
 			}
 			return cs
@@ -353,7 +362,18 @@ func checkC07(c *Case, st *Stats) *Violation {
 	}
 	changed := !bytes.Equal(m, orig)
 	rd, cerr := newFastReader(c.Pkg, "new", bytes.NewReader(m), nil)
+	single := c.Pkg == "gzip" && len(c.Ints) > 2 && c.Ints[2] == 1
+	if single && cerr == nil {
+		// member-by-member mode: only the first member is read; its trailer must still be verified
+		rd.(interface{ Multistream(bool) }).Multistream(false)
+		if first, err := firstGzipMember(orig); err == nil {
+			want = first
+		}
+	}
 	key := c.Pkg + "/" + c.Kind
+	if single {
+		key += "/single"
+	}
 	if cerr != nil {
 		k := errKind(cerr)
 		if c.Kind == "cut" && !(c.Pkg == "gzip" && c.K == 0) && k != "UnexpectedEOF" {
@@ -370,7 +390,9 @@ func checkC07(c *Case, st *Stats) *Violation {
 	if k == "EOF" {
 		// success: the bytes handed out must match a trailer that really is in the input
 		ok := false
-		if c.Pkg == "gzip" {
+		if single {
+			ok = gzipFirstMemberConsistent(m, run.Out)
+		} else if c.Pkg == "gzip" {
 			ok = gzipMembersConsistent(m, run.Out)
 		} else if len(m) >= 4 {
 			ok = binary.BigEndian.Uint32(m[len(m)-4:]) == adler32.Checksum(run.Out) || zlibTrailerMatches(m, run.Out)
@@ -413,6 +435,20 @@ func gzipMembersConsistent(m, out []byte) bool {
 		return len(out) == 0 && len(m) == 0
 	}
 	got, err := io.ReadAll(zr)
+	return err == nil && bytes.Equal(got, out)
+}
+
+func firstGzipMember(m []byte) ([]byte, error) {
+	zr, err := sgzip.NewReader(bytes.NewReader(m))
+	if err != nil {
+		return nil, err
+	}
+	zr.Multistream(false)
+	return io.ReadAll(zr)
+}
+
+func gzipFirstMemberConsistent(m, out []byte) bool {
+	got, err := firstGzipMember(m)
 	return err == nil && bytes.Equal(got, out)
 }
 
